@@ -360,13 +360,31 @@ func runC04(r *vhlib.Run) {
 			nper = 12
 		}
 		for i := 0; i < nper; i++ {
-			lv := 2 + rng.Intn(8)
-			period := vhlib.RandBytes(rng, 1+rng.Intn(6))
-			if i%2 == 0 {
-				period = []byte("ab")[:1+i/2%2]
+			// a period of 2..6 bytes without equal neighbours (the run-length stage leaves it
+			// alone), repeated more than 65536 times inside ONE block
+			k := 2 + (i/2)%5
+			if i == 0 {
+				k = 2
 			}
-			size := 131072 + rng.Intn(lv*100000-131072+1)
-			d := bytes.Repeat(period, size/len(period)+1)[:size]
+			if k > 6 {
+				k = 6
+			}
+			period := make([]byte, k)
+			for j := range period {
+				period[j] = byte(rng.Intn(256))
+				for (j > 0 && period[j] == period[j-1]) || (j == k-1 && period[j] == period[0]) {
+					period[j] = byte(rng.Intn(256))
+				}
+			}
+			size := (65537 + rng.Intn(20000)) * k
+			lv := (size + 99999) / 100000
+			if lv < 9 {
+				lv += rng.Intn(9 - lv + 1)
+			}
+			if lv > 9 {
+				continue
+			}
+			d := bytes.Repeat(period, size/k)
 			c04Check(r, d, lv, "periodic-block", false)
 		}
 		for i := 0; i < nper; i++ {
